@@ -11,6 +11,13 @@ def gen_opts(rng, thorough):
     o = dict(dyn_unions=False)
     if thorough:
         o.update(max_fields=rng.choice([6, 9, 12]), max_depth=3, max_len=rng.choice([4, 9]))
+        x = rng.random()
+        if x < 0.08:
+            o.update(max_fields=40, max_depth=1)        # wide structures (two-digit counts in struct formats)
+        elif x < 0.16:
+            o.update(max_len=300, max_depth=1, max_fields=5)   # long arrays (block sizes beyond 256 bytes)
+    elif rng.random() < 0.04:
+        o.update(max_fields=30, max_depth=1)
     return o
 
 
